@@ -63,7 +63,7 @@ def headReasons (key : String) (c : Val) (d : Val) : List String :=
   else if !keyOk key then ["badkey"]
   else
     (match cands (splitDots key) d with
-    | .ok cs' => if cs' == reach (splitDots key) d then [] else ["deadend"]
+    | .ok _ => []
     | .error _ => ["badkey"]) ++ condReasons c (reach (splitDots key) d)
 
 theorem fieldsReasons_cons (key : String) (c : Val) (rest : Fields) (d : Val) :
@@ -99,15 +99,14 @@ theorem matchFields_cons (key : String) (c : Val) (rest : Fields) (d : Val) :
 
 def applyHead (key : String) (search : Val) (d : Val) : R Bool :=
   if key = "$comment" then .ok true
-  else if logicalKeys.contains key then
+  else if logicalKeys.contains key && key != "$not" then
     if !search.truthy then .error .opFail
     else (match search with
       | .arr qs =>
         if key = "$or" then anyApply qs d
         else if key = "$and" then allApply qs d
-        else if key = "$nor" then norApply qs d
-        else .ok true
-      | .doc _ | .str _ => if key = "$not" then .ok true else .error .opFail
+        else norApply qs d
+      | .doc _ | .str _ => .error .opFail
       | _ => .error .typeErr)
   else if key = "$expr" then Expr.exprFilter search d
   else if topLevelOperators.contains key then .error .notImpl
@@ -120,7 +119,7 @@ theorem applyFields_cons (key : String) (c : Val) (rest : Fields) (d : Val) :
       if ok then applyFields rest d else pure false) := by
   have step : ∀ (X : R Bool), (applyFields ((key, c) :: rest) d =
       if key = "$comment" then applyFields rest d
-      else if logicalKeys.contains key then
+      else if logicalKeys.contains key && key != "$not" then
         if !c.truthy then .error .opFail
         else do
           let ok ← X
@@ -134,7 +133,7 @@ theorem applyFields_cons (key : String) (c : Val) (rest : Fields) (d : Val) :
         if ok then applyFields rest d else pure false) →
       (applyHead key c d =
       if key = "$comment" then .ok true
-      else if logicalKeys.contains key then
+      else if logicalKeys.contains key && key != "$not" then
         if !c.truthy then .error .opFail
         else X
       else if key = "$expr" then Expr.exprFilter c d
@@ -213,11 +212,7 @@ theorem head_agree (nb : Bool) (d : Val) (hd : Clean nb d) (key : String) (c : V
         rw [candsKey_of_keyOk d hko]
         cases hcd : cands (splitDots key) d with
         | error e => simp [hcd] at hr1
-        | ok cs' =>
-          simp only [hcd] at hr1
-          by_cases hbe : (cs' == reach (splitDots key) d) = true
-          · rw [candsBeq_eq _ _ hbe]
-          · simp [hbe] at hr1
+        | ok cs' => rw [cands_eq_reach _ _ _ hcd]
       have hcs : CandsAll (Clean nb) (reach (splitDots key) d) := by
         intro cnd hm v hv; subst hv
         exact reach_hered (hered_clean nb) _ d hd v hm
